@@ -130,9 +130,9 @@ FUEL_DEFAULT = 400000
 class Program:
     """Parsed MIR of one or more crates + source facts."""
 
-    def __init__(self, root='/repo'):
+    def __init__(self, root='/repo', features=('std', 'alloc')):
         self.items = {}
-        self.src = SourceInfo(root)
+        self.src = SourceInfo(root, features)
         self.by_last = {}        # last path segment -> [names]
         self.methods = {}        # (selfty, method) -> [(trait, name)]
         self.closures = {}       # closure type text -> fn name
@@ -1973,6 +1973,8 @@ def fp_cmp(op, x, y, depth=0):
         if z3.is_app_of(y, z3.Z3_OP_ITE):
             c, t, e = y.children()
             return mk_bool(z3.If(c, to_z3bool(fp_cmp(op, x, t, depth + 1)), to_z3bool(fp_cmp(op, x, e, depth + 1))))
+    if op in ('Eq', 'Ne') and x.get_id() > y.get_id():
+        x, y = y, x                      # fp.eq is symmetric: one atom per unordered pair
     r = {'Eq': lambda: z3.fpEQ(x, y), 'Ne': lambda: z3.Not(z3.fpEQ(x, y)), 'Lt': lambda: z3.fpLT(x, y),
          'Le': lambda: z3.fpLEQ(x, y), 'Gt': lambda: z3.fpGT(x, y), 'Ge': lambda: z3.fpGEQ(x, y)}[op]()
     if op == 'Ne':
